@@ -193,6 +193,41 @@ def eval_C10(item):
                 res['pred'].append('translation by %r moved mom1[%d] from %r to %r' % (sh, i, got['mom1'][i], t1[i]))
         if not np.allclose(t2, got['mom2'], rtol=0, atol=1e-9 * span * span):
             res['pred'].append('translation changed the second moments')
+    # several directions at once ("all directions and projections"): each row is normalised on its own
+    if nd >= 2:
+        import random
+        rr = random.Random(len(pos) * 131 + sum(d))
+        rows = []
+        while len(rows) < 2:
+            v = [rr.randint(-3, 3) for _ in range(nd)]
+            if any(v):
+                rows.append(v)
+        with warnings.catch_warnings():
+            warnings.simplefilter('ignore')
+            stm = make_stat(pos, wk, fb)
+            G = np.atleast_2d(np.array(stm.mom2_along(tuple(tuple(r) for r in rows)), dtype=float))
+        covf = np.array([[float(x) for x in row] for row in cov])
+        R = np.array(rows, dtype=float)
+        R = R / np.sqrt((R * R).sum(axis=1))[:, None]
+        want = R.dot(covf).dot(R.T)
+        if G.shape != want.shape or not np.allclose(G, want, rtol=0, atol=1e-9 * span * span):
+            res['pred'].append('mom2_along(%r) = %r, quadratic forms of the normalised rows give %r' % (rows, G.tolist(), want.tolist()))
+        # projection onto a subspace: principal axes do not depend on the lengths of the projection rows
+        if nd >= 3:
+            ax1 = [[1 if j == i else 0 for j in range(nd)] for i in range(2)]
+            ax2 = [[(2 if i == 0 else 5) * x for x in r] for i, r in enumerate(ax1)]
+            with warnings.catch_warnings():
+                warnings.simplefilter('ignore')
+                p1 = make_stat(pos, wk, fb).projected_paxes(tuple(tuple(r) for r in ax1))
+                p2 = make_stat(pos, wk, fb).projected_paxes(tuple(tuple(r) for r in ax2))
+            sub = covf[:2, :2]
+            for P in (p1, p2):
+                V = np.array([np.asarray(v, dtype=float) for v in P])
+                lam = [float(v.dot(sub).dot(v)) for v in V]
+                if V.shape != (2, 2) or not np.allclose(V.dot(V.T), np.eye(2), atol=1e-8) or lam[0] < lam[1] - 1e-9 * span * span or \
+                        any(not np.allclose(sub.dot(v), l * v, atol=1e-8 * span * span) for v, l in zip(V, lam)):
+                    res['pred'].append('projected_paxes are not the ordered orthonormal eigenvectors of the projected second moments')
+                    break
     # principal axes: real, orthonormal, ordered by decreasing variance, eigenvectors of mom2
     px = got['paxes']
     M = got['mom2']
@@ -394,4 +429,335 @@ def eval_C13(item):
     r3 = float(flux_call(fam, vals2, unit2, out, meta2).value)
     if not close(r3, got, got, 1e-8):
         res['pred'].append('depends on the units equal inputs are expressed in: %r (%s) vs %r (%s)' % (r3, unit2, got, unit))
+    return res
+
+
+# ---------------------------------------------------------------------------------------------
+# C11
+
+def gen_item_C11(rng, idx, tier):
+    dim = 3 if idx % 4 != 3 else 2
+    pos, wk, fb, kind = gen_points(rng, dim, maxn=12, span=5)
+    if len(pos) < 2:
+        pos, wk, fb, kind = gen_points(rng, dim, maxn=12, span=5)
+    wk = [k if k is not None else 5 for k in wk]
+    return {'dim': dim, 'pos': [list(c) for c in pos], 'wk': wk, 'fb': fb, 'kind': kind, 'vaxis': rng.choice([0, 1, 2]),
+            'dx': rng.choice([None, 0.5, 2.0, 7.0]), 'dv': rng.choice([None, 0.25, 3.0]), 'c': rng.choice([2.0, 0.5, 10.0]),
+            'wcs': rng.random() < 0.3, 'meta_case': rng.choice(['ok', 'ok', 'ok', 'no_data_unit', 'bad_type', 'bad_wcs'])}
+
+
+def _exact_moments(pos, wk, fb, nd):
+    W = [Fraction(k, 2 ** fb) for k in wk]
+    S = sum(W)
+    mean = [sum(w * c[i] for w, c in zip(W, pos)) / S for i in range(nd)]
+    cov = [[sum(w * (c[i] - mean[i]) * (c[j] - mean[j]) for w, c in zip(W, pos)) / S for j in range(nd)] for i in range(nd)]
+    return S, mean, cov
+
+
+def eval_C11(item):
+    res = {'corr': [], 'pred': [], 'hyp': [], 'known': [], 'tags': ['dim=%d' % item['dim'], 'kind=' + item['kind'], 'meta=' + item['meta_case']],
+           'key': repr(sorted(item.items())), 'nontrivial': len(item['pos']) >= 2}
+    pos = [tuple(c) for c in item['pos']]
+    wk, fb, dim = item['wk'], item['fb'], item['dim']
+    st = make_stat(pos, wk, fb)
+    md = {'data_unit': u.Jy}
+    dx, dv = item['dx'], item['dv']
+    if dx is not None:
+        md['spatial_scale'] = dx * u.arcsec
+    if dim == 3:
+        vaxis = item['vaxis']
+        md['vaxis'] = vaxis
+        if dv is not None:
+            md['velocity_scale'] = dv * u.km / u.s
+        res['tags'].append('vaxis=%d' % vaxis)
+    mc = item['meta_case']
+    cls = PPVStatistic if dim == 3 else PPStatistic
+    with warnings.catch_warnings():
+        warnings.simplefilter('ignore')
+        if mc != 'ok':
+            md2 = dict(md)
+            try:
+                if mc == 'no_data_unit':
+                    del md2['data_unit']
+                    cls(st, md2).flux
+                    res['pred'].append('flux without data_unit did not raise')
+                elif mc == 'bad_type':
+                    md2['spatial_scale'] = 3.0
+                    cls(st, md2).major_sigma
+                    res['pred'].append('spatial_scale given as a bare number was accepted')
+                else:
+                    md2['wcs'] = 'not a wcs'
+                    cls(st, md2).x_cen
+                    res['pred'].append('wcs given as a string was accepted')
+            except KeyError:
+                if mc != 'no_data_unit':
+                    res['pred'].append('%s raised KeyError' % mc)
+            except TypeError:
+                if mc == 'no_data_unit':
+                    res['pred'].append('missing data_unit raised TypeError')
+        s = cls(st, md)
+        try:
+            q = {'major': s.major_sigma, 'minor': s.minor_sigma, 'radius': s.radius, 'area_ellipse': s.area_ellipse,
+                 'area_exact': s.area_exact, 'pa': s.position_angle, 'x': s.x_cen, 'y': s.y_cen}
+            if dim == 3:
+                q['v'] = s.v_cen
+                q['vrms'] = s.v_rms
+        except Exception as e:
+            res['pred'].append('statistic raised %s: %s' % (type(e).__name__, str(e)[:80]))
+            return res
+    DX = 1.0 if dx is None else dx
+    DV = 1.0 if dv is None else dv
+    sunit = u.pixel if dx is None else u.arcsec
+    vunit = u.pixel if dv is None else u.km / u.s
+    # units
+    for k, un in (('major', sunit), ('minor', sunit), ('radius', sunit), ('area_ellipse', sunit ** 2), ('area_exact', sunit ** 2),
+                  ('pa', u.degree), ('x', u.pixel), ('y', u.pixel)) + ((('v', u.pixel), ('vrms', vunit)) if dim == 3 else ()):
+        if getattr(q[k], 'unit', None) != un:
+            res['pred'].append('%s carries unit %r, expected %s' % (k, getattr(q[k], 'unit', None), un))
+    val = dict((k, np.asarray(getattr(v, 'value', v))) for k, v in q.items())
+    for k, v in val.items():
+        if np.iscomplexobj(v) or not np.all(np.isfinite(v.astype(float))):
+            res['pred'].append('%s is not a finite real number: %r' % (k, v))
+            return res
+    val = dict((k, float(v)) for k, v in val.items())
+    # model
+    line = ('ppv vaxis=%d pts=%s' % (item['vaxis'], pts_string(pos, wk, fb))) if dim == 3 else ('pp pts=%s' % pts_string(pos, wk, fb))
+    m = ask_kv(line)
+    if 'sigsum' not in m:
+        res['corr'].append('model: %r' % (m,))
+        return res
+    sc = 25.0
+    checks = [('major^2+minor^2', val['major'] ** 2 + val['minor'] ** 2, DX * DX * float(frac(m['sigsum'])), sc * DX * DX),
+              ('(major*minor)^2', (val['major'] * val['minor']) ** 2, DX ** 4 * float(frac(m['sigprod'])), sc * sc * DX ** 4),
+              ('x_cen', val['x'], float(frac(m['xcen'])), 5), ('y_cen', val['y'], float(frac(m['ycen'])), 5),
+              ('area_exact', val['area_exact'], DX * DX * int(m['area']), 25 * DX * DX)]
+    if dim == 3:
+        checks += [('v_rms^2', val['vrms'] ** 2, DV * DV * float(frac(m['vrmssq'])), sc * DV * DV), ('v_cen', val['v'], float(frac(m['vcen'])), 5)]
+    for name, got, want, scale in checks:
+        if not close(got, want, scale, 1e-8):
+            res['corr'].append('%s impl=%r model=%r' % (name, got, want))
+    # predicates from exact moments (independent of the model)
+    S, mean, cov = _exact_moments(pos, wk, fb, dim)
+    if dim == 3:
+        sky = [a for a in range(3) if a != item['vaxis']]
+    else:
+        sky = [0, 1]
+    a_, b_, c_ = float(cov[sky[0]][sky[0]]), float(cov[sky[0]][sky[1]]), float(cov[sky[1]][sky[1]])
+    tr, det = a_ + c_, a_ * c_ - b_ * b_
+    disc = max(tr * tr / 4 - det, 0.0)
+    l1, l2 = tr / 2 + math.sqrt(disc), max(tr / 2 - math.sqrt(disc), 0.0)
+    exp = {'major': DX * math.sqrt(l1), 'minor': DX * math.sqrt(l2)}
+    exp['radius'] = math.sqrt(exp['major'] * exp['minor'])
+    exp['area_ellipse'] = math.pi * exp['major'] * exp['minor'] * (2.3548 * 0.5) ** 2
+    n_sky = len(set((c[sky[0]], c[sky[1]]) for c in pos))
+    exp['area_exact'] = n_sky * DX * DX
+    exp['y'] = float(mean[sky[0]])
+    exp['x'] = float(mean[sky[1]])
+    if dim == 3:
+        exp['v'] = float(mean[item['vaxis']])
+        exp['vrms'] = DV * math.sqrt(float(cov[item['vaxis']][item['vaxis']]))
+    # square roots amplify rounding near zero: compare minor^2, radius^4, area_ellipse^2 instead
+    POW = {'minor': 2, 'radius': 4, 'area_ellipse': 2, 'major': 2, 'vrms': 2}
+    for k, want in exp.items():
+        pw = POW.get(k, 1)
+        if not close(val[k] ** pw, want ** pw, (10 * DX * DX + 10) ** pw, 1e-8):
+            res['pred'].append('%s = %r, definition gives %r' % (k, val[k], want))
+    if not (val['major'] >= val['minor'] - 1e-9 and val['minor'] >= 0):
+        res['pred'].append('sigmas not ordered / non-negative: major %r minor %r' % (val['major'], val['minor']))
+    # position angle: direction of the major axis in the sky plane (angle of (a[0], a[1]) via arctan2(a0, a1))
+    if l1 - l2 > 1e-6 * max(1.0, l1):
+        ang = math.radians(val['pa'])
+        vy, vx = math.sin(ang), math.cos(ang)      # a = (vy, vx) in (sky[0], sky[1]) order
+        r0 = a_ * vy + b_ * vx - l1 * vy
+        r1 = b_ * vy + c_ * vx - l1 * vx
+        if abs(r0) + abs(r1) > 1e-6 * max(1.0, l1):
+            res['pred'].append('position angle %r deg is not the direction of the major axis' % val['pa'])
+    # the velocity axis is a convention: transposed data with vaxis = 0 gives the same numbers
+    if dim == 3 and item['vaxis'] != 0:
+        v = item['vaxis']
+        perm = [v] + [a for a in range(3) if a != v]
+        pos2 = [tuple(c[a] for a in perm) for c in pos]
+        md0 = dict(md)
+        md0['vaxis'] = 0
+        with warnings.catch_warnings():
+            warnings.simplefilter('ignore')
+            s0 = PPVStatistic(make_stat(pos2, wk, fb), md0)
+            for k, attr in (('major', 'major_sigma'), ('minor', 'minor_sigma'), ('vrms', 'v_rms'), ('x', 'x_cen'), ('y', 'y_cen'),
+                            ('v', 'v_cen'), ('area_exact', 'area_exact'), ('radius', 'radius')):
+                w = float(getattr(s0, attr).value)
+                pw = POW.get(k, 1)
+                if not close(val[k] ** pw, w ** pw, (10 * DX * DX + 10) ** pw, 1e-8):
+                    res['pred'].append('%s differs between vaxis=%d and the transposed data with vaxis=0: %r vs %r' % (k, v, val[k], w))
+    # linear scaling
+    if dx is not None:
+        md3 = dict(md)
+        md3['spatial_scale'] = item['c'] * dx * u.arcsec
+        with warnings.catch_warnings():
+            warnings.simplefilter('ignore')
+            s3 = cls(st, md3)
+            for k, attr, pw in (('major', 'major_sigma', 1), ('minor', 'minor_sigma', 1), ('radius', 'radius', 1), ('area_exact', 'area_exact', 2),
+                                ('area_ellipse', 'area_ellipse', 2)):
+                w = float(getattr(s3, attr).value)
+                q4 = POW.get(k, 1)
+                if not close(w ** q4, (val[k] * item['c'] ** pw) ** q4, (10 * DX * DX * item['c'] ** 2 + 10) ** q4, 1e-8):
+                    res['pred'].append('%s does not scale linearly with spatial_scale' % k)
+    # linear WCS: centroids through the transformation
+    if item['wcs']:
+        from astropy.wcs import WCS
+        w = WCS(naxis=dim)
+        w.wcs.crpix = [1.0] * dim
+        w.wcs.cdelt = [0.5, 2.0, 3.0][:dim]
+        w.wcs.crval = [10.0, -4.0, 100.0][:dim]
+        md4 = dict(md)
+        md4['wcs'] = w
+        with warnings.catch_warnings():
+            warnings.simplefilter('ignore')
+            s4 = cls(st, md4)
+            try:
+                gx, gy = float(s4.x_cen), float(s4.y_cen)
+                # numpy axis k of the data <-> FITS axis dim-1-k
+                def world(numpy_axis, pix):
+                    f_ax = dim - 1 - numpy_axis
+                    return w.wcs.crval[f_ax] + w.wcs.cdelt[f_ax] * pix
+                ex = world(sky[1], exp['x']) if dim == 2 else None
+                if dim == 2:
+                    ey = world(sky[0], exp['y'])
+                    if not close(gx, ex, 100, 1e-8) or not close(gy, ey, 100, 1e-8):
+                        res['pred'].append('centroid through the WCS: got (%r, %r), expected (%r, %r)' % (gx, gy, ex, ey))
+            except Exception as e:
+                res['pred'].append('centroid through the WCS raised %s' % type(e).__name__)
+    return res
+
+
+# ---------------------------------------------------------------------------------------------
+# C12
+
+def gen_item_C12(rng, idx, tier):
+    import props_history as ph
+    nd = 2 if idx % 3 != 2 else 3
+    mode = 'periodic' if idx % 4 == 1 else 'plain'
+    if mode == 'periodic':
+        shape = [rng.randint(2, 4), rng.randint(6, 12)] if nd == 2 else [2, rng.randint(2, 3), rng.randint(6, 10)]
+        case = gen.gen_compute_case(rng, force={'shape': shape, 'periodic': [nd - 1]})
+        case['per_as_list'] = False
+    else:
+        case = gen.gen_compute_case(rng, maxpix=40, force={'ndim': nd, 'adj': 'grid'})
+    case['dtype'] = 'float64'
+    case['k'] = [None if x is None else abs(x) + 1 for x in case['k']]
+    if case['minv'] != 'min':
+        case['minv'] = [max(case['minv'][0], 0), case['minv'][1]]
+    case['crits'] = []
+    ops = [ph.gen_prune_op(rng, case, allow_crits=False)] if rng.random() < 0.4 else []
+    allf = ['major_sigma', 'minor_sigma', 'radius', 'area_ellipse', 'area_exact', 'position_angle', 'x_cen', 'y_cen', 'flux'] + \
+        (['v_rms', 'v_cen'] if nd == 3 else [])
+    fields = None if rng.random() < 0.4 else rng.sample(allf, rng.randint(1, len(allf)))
+    return {'case': case, 'ops': ops, 'fields': fields, 'verbose': rng.random() < 0.3, 'mode': mode,
+            'shift': rng.randint(1, max(1, case['shape'][-1] - 1)), 'sub': rng.random() < 0.25, 'dx': rng.choice([None, 2.0])}
+
+
+def eval_C12(item):
+    import io as _io
+    import contextlib
+    case = item['case']
+    nd = len(case['shape'])
+    res = {'corr': [], 'pred': [], 'hyp': [], 'known': [], 'tags': ['nd=%d' % nd, 'mode=' + item['mode'], 'fields=%s' % ('default' if item['fields'] is None else 'subset')],
+           'key': repr((case['shape'], case['k'], case['minv'], case['mind'], case['minn'], item['ops'], item['fields'], item['mode']))}
+    d, a, order, hooked, steps = session.run_session(case, item['ops'])
+    for st in steps:
+        res['pred'] += st.wf
+    if res['pred'] or steps[-1].iobs is None:
+        return res
+    obs = steps[-1].iobs
+    md = {'data_unit': u.Jy}
+    if item['dx'] is not None:
+        md['spatial_scale'] = item['dx'] * u.arcsec
+    catf = pp_catalog if nd == 2 else ppv_catalog
+    cls = PPStatistic if nd == 2 else PPVStatistic
+    structures = d
+    if item['sub'] and len(obs['structs']) > 1:
+        structures = [s for s in d if s.idx % 2 == 0] or list(d)
+    n_struct = len(obs['structs']) if structures is d else len(structures)
+    res['nontrivial'] = n_struct >= 2
+    if n_struct == 0:
+        return res
+    buf = _io.StringIO()
+    try:
+        with warnings.catch_warnings():
+            warnings.simplefilter('ignore')
+            with contextlib.redirect_stdout(buf):
+                cat = catf(structures, md, fields=item['fields'], verbose=item['verbose'])
+    except Exception as e:
+        res['pred'].append('catalog (fields=%r) not computable: %s: %s' % (item['fields'], type(e).__name__, str(e)[:80]))
+        return res
+    ids = sorted(int(s.idx) for s in structures)
+    if len(cat) != len(ids):
+        res['pred'].append('catalog has %d rows for %d structures' % (len(cat), len(ids)))
+        return res
+    if [int(x) for x in cat['_idx']] != ids:
+        res['pred'].append('identifier column %r is not the sorted identifiers %r' % ([int(x) for x in cat['_idx']], ids))
+        return res
+    fields = item['fields'] or [c for c in cat.colnames if c != '_idx']
+    shape = tuple(case['shape'])
+    for row, sid in enumerate(ids):
+        s = d[sid]
+        with warnings.catch_warnings():
+            warnings.simplefilter('ignore')
+            # the statistic computed for that structure alone; for a Dendrogram the catalog may unwrap
+            # index arrays across the array edge: reproduce that with the model's heuristic
+            idx = [np.array(x, dtype=float) for x in s.indices(subtree=True)]
+            if structures is d:
+                for ax in range(nd):
+                    m = ask_kv('wrap n=%d xs=%s' % (shape[ax], ','.join(str(int(x)) for x in idx[ax])))
+                    idx[ax] = np.array([float(frac(x)) for x in m['wrapped'].split(',')])
+            stat = cls(ScalarStatistic(s.values(subtree=True), tuple(idx)), md)
+            for f in fields:
+                want = getattr(stat, f)
+                got = cat[f][row]
+                wv = float(getattr(want, 'value', want))
+                if not close(float(got), wv, abs(wv) + 10, 1e-7):
+                    res['pred'].append('row of structure %d, field %s: catalog %r, statistic of the structure alone %r' % (sid, f, float(got), wv))
+                wu = getattr(want, 'unit', None)
+                if cat[f].unit != wu and not (cat[f].unit is None and wu is None):
+                    res['pred'].append('field %s: column unit %r, statistic unit %r' % (f, cat[f].unit, wu))
+    # periodic data: shape statistics of narrow structures do not depend on where the edge is
+    if item['mode'] == 'periodic' and structures is d and not item['ops']:
+        ax = nd - 1
+        n = shape[ax]
+        k = item['shift']
+        import copy as _copy
+        c2 = _copy.deepcopy(case)
+        arr = np.array([(-1 if x is None else x) for x in case['k']], dtype=object).reshape(shape)
+        rolled = np.roll(arr, k, axis=ax)
+        c2['k'] = [None if x == -1 else int(x) for x in rolled.ravel()]
+        flat = np.arange(int(np.prod(shape))).reshape(shape)
+        sigma = dict((int(o), j) for j, o in enumerate(np.roll(flat, k, axis=ax).ravel()))
+        d2, a2, order2, _, steps2 = session.run_session(c2, [])
+        o2 = steps2[0].iobs
+        if o2 is not None:
+            with warnings.catch_warnings():
+                warnings.simplefilter('ignore')
+                cat1 = catf(d, md, fields=['major_sigma', 'minor_sigma', 'radius', 'area_exact', 'x_cen'], verbose=False)
+                cat2 = catf(d2, md, fields=['major_sigma', 'minor_sigma', 'radius', 'area_exact', 'x_cen'], verbose=False)
+            reg2 = dict((tuple(sorted(s['pixsub'])), sid) for sid, s in o2['structs'].items())
+            for sid, s in obs['structs'].items():
+                cols = sorted(set(int(np.unravel_index(p, shape)[ax]) for p in s['pixsub']))
+                # cyclic width: smallest arc containing all occupied columns
+                gaps = [(cols[(i + 1) % len(cols)] - cols[i]) % n for i in range(len(cols))]
+                width = n - max(gaps) if len(cols) > 1 else 0
+                if not (2 * (width + 1) < n):
+                    continue
+                key = tuple(sorted(sigma[p] for p in s['pixsub']))
+                if key not in reg2:
+                    continue        # ties may reorganise structures; C17 covers the hierarchy itself
+                r1 = list(cat1['_idx']).index(sid)
+                r2 = list(cat2['_idx']).index(reg2[key])
+                for f in ('major_sigma', 'minor_sigma', 'radius', 'area_exact'):
+                    if not close(float(cat1[f][r1]), float(cat2[f][r2]), 10, 1e-7):
+                        res['pred'].append('structure %d (width %d of %d): %s changes from %r to %r when the data are shifted by %d along the periodic axis'
+                                           % (sid, width, n, f, float(cat1[f][r1]), float(cat2[f][r2]), k))
+                dxc = (float(cat2['x_cen'][r2]) - float(cat1['x_cen'][r1]) - k) / n
+                if abs(dxc - round(dxc)) > 1e-7:
+                    res['pred'].append('structure %d: centroid moved from %r to %r under a shift by %d (axis length %d)'
+                                       % (sid, float(cat1['x_cen'][r1]), float(cat2['x_cen'][r2]), k, n))
+                res['tags'].append('narrow-periodic')
     return res
